@@ -27,7 +27,8 @@ def demo_cmd(sid, demo_text, notes):
 def validate(args):
     sid, w = args
     prop, ab = sid.split("-")
-    src = f"{SEED}/{prop}/_seed/{ab}"
+    # ids of later rounds look like C04-2A: round digit + letter, under /tmp/seed<round>
+    src = f"{SEED}{ab[0]}/{prop}/_seed/{ab[1:]}" if ab[0].isdigit() else f"{SEED}/{prop}/_seed/{ab}"
     wt = f"{VAL}/w{w}"; td = f"{VAL}/t{w}"
     res = {"id": sid, "property": prop}
     sh("git reset -q --hard && git clean -fdq", wt)
